@@ -298,19 +298,25 @@ func (cs *ContractSet) parseFile(path string, defaultPkg string) error {
 			if cur == nil {
 				return fmt.Errorf("%s:%d: assert outside func", path, it.line)
 			}
-			m := regexp.MustCompile(`^after call (\S+?)(?:#(\d+))?\s*:\s*(.*)$`).FindStringSubmatch(it.text)
+			m := regexp.MustCompile(`^after call (\S+?)(?:#(\d+|\*))?\s*:\s*(.*)$`).FindStringSubmatch(it.text)
 			if m == nil {
 				return fmt.Errorf("%s:%d: assert after call <callee>[#n]: <expr>", path, it.line)
 			}
 			ord := 0
-			if m[2] != "" {
+			if m[2] == "*" {
+				ord = -1 // every such call, possibly none (a guard against a call the code does not make today)
+			} else if m[2] != "" {
 				ord, _ = strconv.Atoi(m[2])
 			}
 			c, err := mkClause(m[3], it.line)
 			if err != nil {
 				return err
 			}
-			cur.Asserts = append(cur.Asserts, PointAssert{Callee: m[1], Ord: ord, Clause: c})
+			callee := m[1]
+			if !strings.Contains(callee, ".") {
+				callee = pkg + "." + callee
+			}
+			cur.Asserts = append(cur.Asserts, PointAssert{Callee: callee, Ord: ord, Clause: c})
 		case "trusted":
 			if cur == nil {
 				return fmt.Errorf("%s:%d: trusted outside func", path, it.line)
